@@ -1,7 +1,9 @@
-(* Properties_C11.v — syntax is checked before anything runs.
-   PARTIAL: the no-effects theorems are proved; positions and the traceback chain are checked by the
-   correspondence (diagnostic line, column and the full (name, line, column) chain are compared). *)
-From PE2 Require Import Run Lemmas_Run.
+(* Properties_C11.v — syntax is checked before anything runs, and diagnostics point at the fault.
+   Proved: a lexical or syntax error anywhere means nothing executes; and what a runtime diagnostic says, in every state -- the
+   position of the failing token, its own frame, then the call site of every active caller, innermost first.  PARTIAL: that each
+   call records its call site in the caller's context before the body runs (so that the frames are the ACTIVE call sites), and
+   the positions of syntax diagnostics, are checked by the correspondence (line, column and the full chain are compared). *)
+From PE2 Require Import Run Lemmas_Run Eval Lemmas_Traceback.
 Local Open Scope Z_scope.
 
 (* a lexical error anywhere: nothing executes -- the output is only the blank line the launcher prints
@@ -27,3 +29,24 @@ Example C11_example :
 OUTPUT )") [] [] []) = 1 /\ ob_out (run_file false (mkLim 0 0 0 0) 100 (str_of_string "OUTPUT 1
 OUTPUT )") [] [] []) = [ch_nl].
 Proof. vm_compute. split; reflexivity. Qed.
+
+(* a runtime diagnostic, in every state: its position is the line and column of the token it was raised at; the first frame of the
+   traceback is the context the failing statement ran in, with that line; then one frame for every ancestor context that is switched
+   out at a call -- its name and the line and column of that call site -- innermost first (`frames` reads them off the context
+   table by walking the parents) *)
+Theorem C11_runtime_error_names_the_failing_token_and_the_call_sites : forall A t c s cx rest,
+  nm_get c (s_ctxs s) = Some cx -> frames (S (x_depth cx)) (s_ctxs s) (x_parent cx) = Some rest ->
+  @rt_error A t c s = (Fail (FErr (mkDiag DRuntime (tline t) (tcol t) EOther ((x_name cx, tline t, tcol t) :: rest))), s).
+Proof. exact @runtime_error_names_the_failing_token. Qed.
+Print Assumptions C11_runtime_error_names_the_failing_token_and_the_call_sites.
+
+(* spelled out for a statement failing in Q, called from P, called from the program: three frames, innermost first, ending at the
+   main program *)
+Theorem C11_traceback_of_a_nested_call : forall t s q p root cq cp croot lp kp lr kr,
+  nm_get q (s_ctxs s) = Some cq -> nm_get p (s_ctxs s) = Some cp -> nm_get root (s_ctxs s) = Some croot ->
+  x_parent cq = Some p -> x_parent cp = Some root -> x_parent croot = None ->
+  x_switch cp = Some (lp, kp) -> x_switch croot = Some (lr, kr) -> (2 <= x_depth cq)%nat ->
+  @rt_error unit t q s = (Fail (FErr (mkDiag DRuntime (tline t) (tcol t) EOther
+                                 [(x_name cq, tline t, tcol t); (x_name cp, lp, kp); (x_name croot, lr, kr)])), s).
+Proof. exact three_frames. Qed.
+Print Assumptions C11_traceback_of_a_nested_call.
